@@ -13,6 +13,7 @@ def build_registry():
     view_c.register(reg)
     view_c.register_selection(reg)
     gfa_c.register(reg)
+    gfa_c.register_get_path(reg)
     index_c.register(reg)
     order_c.register(reg)
     phase_c.register(reg)
